@@ -148,6 +148,27 @@ theorem c10_valid_implies_evaluable_orig_counterexample :
   rw [hnone] at hi
   cases hi
 
+/-- before `fix: I3EnergyPDF validates the sin_dec values it evaluates`: the validity check looked at
+`sin(dec)` (`sd`) while `get_pd` looks the bin up with the separate field `sin_dec` (`s`) -/
+def c10_valid_two_fields_orig_statement : Prop :=
+  ∀ (eE eD : List ℤ) (evs : List (Ev ℤ)) (x sd s : ℤ), eE.Pairwise (· ≤ ·) → eD.Pairwise (· ≤ ·) →
+    2 ≤ eE.length → 2 ≤ eD.length → inRange eE x = true → inRange eD sd = true →
+    ∃ v, energyPd [] eE eD evs x s = some v
+
+/-- two fields that differ (by rounding in the code): the checked one on the upper edge, the
+looked-up one just above it — accepted, then IndexError -/
+theorem c10_valid_two_fields_orig_counterexample : ¬ c10_valid_two_fields_orig_statement := by
+  intro h
+  obtain ⟨v, hv⟩ := h [0, 1, 2] [0, 1, 2] [] 1 2 3 (by decide) (by decide) (by decide) (by decide)
+    (by decide) (by decide)
+  have hnone : energyPd [] ([0, 1, 2] : List ℤ) [0, 1, 2] [] 1 3 = none := by decide
+  rw [hnone] at hv
+  cases hv
+
+-- … and just below the lower edge the lookup wraps around to the last band (Python index -1)
+example : inRange ([0, 1, 2, 3] : List ℤ) (-1) = false ∧ lookup ([0, 1, 2, 3] : List ℤ) (-1) = some 2 := by
+  decide
+
 /-! ## spatial background histogram and the 1/2π factor (ℝ) -/
 
 namespace C10
@@ -398,11 +419,11 @@ theorem integral_clip (f : ℝ → ℝ) (ts te : ℝ) (hte : ts ≤ te)
     (hf0 : ∀ t, t < ts ∨ te < t → f t = 0) (hfi : ∀ a b, IntervalIntegrable f volume a b)
     (a b : ℝ) (hab : a ≤ b) :
     ∫ t in a..b, f t =
-      if (decide (ts < b) && decide (a ≤ te)) = true then
+      if (decide (ts < b) && decide (a < te)) = true then
         ∫ t in (if a ≤ ts then ts else a)..(if te < b then te else b), f t
       else 0 := by
-  by_cases hk : ts < b ∧ a ≤ te
-  · have hc : (decide (ts < b) && decide (a ≤ te)) = true := by simp [hk.1, hk.2]
+  by_cases hk : ts < b ∧ a < te
+  · have hc : (decide (ts < b) && decide (a < te)) = true := by simp [hk.1, hk.2]
     rw [if_pos hc]
     set a' := (if a ≤ ts then ts else a) with ha'
     set b' := (if te < b then te else b) with hb'
@@ -413,7 +434,7 @@ theorem integral_clip (f : ℝ → ℝ) (ts te : ℝ) (hte : ts ≤ te)
       split_ifs with h h' h'
       · exact hte
       · exact le_of_lt hk.1
-      · exact hk.2
+      · exact le_of_lt hk.2
       · exact hab
     have e1 : ∫ t in a..a', f t = 0 := by
       apply integral_zero_of_Ioo f a a' h1
@@ -434,7 +455,7 @@ theorem integral_clip (f : ℝ → ℝ) (ts te : ℝ) (hte : ts ≤ te)
     rw [← intervalIntegral.integral_add_adjacent_intervals (hfi a a') (hfi a' b),
       ← intervalIntegral.integral_add_adjacent_intervals (hfi a' b') (hfi b' b), e1, e3]
     ring
-  · have hc : ¬ (decide (ts < b) && decide (a ≤ te)) = true := by
+  · have hc : ¬ (decide (ts < b) && decide (a < te)) = true := by
       simp only [Bool.and_eq_true, decide_eq_true_eq]; exact hk
     rw [if_neg hc]
     apply integral_zero_of_Ioo f a b hab
@@ -442,8 +463,8 @@ theorem integral_clip (f : ℝ → ℝ) (ts te : ℝ) (hte : ts ≤ te)
     apply hf0 t
     by_cases h : ts < b
     · right
-      have : te < a := not_le.mp (fun h' => hk ⟨h, h'⟩)
-      exact lt_trans this ht.1
+      have : te ≤ a := not_lt.mp (fun h' => hk ⟨h, h'⟩)
+      exact lt_of_le_of_lt this ht.1
     · left; exact lt_of_lt_of_le ht.2 (not_lt.mp h)
 
 theorem sum_filter_map {α : Type} (l : List α) (c : α → Bool) (clip : α → α) (g h : α → ℝ)
@@ -494,7 +515,7 @@ theorem c10_time_no_overlap_zero (val : ℝ → ℝ) (ivs : List (ℝ × ℝ)) (
 /-- the normalisation `S` as coded (index arithmetic of `get_uptime_intervals_between`) never
 raises on sorted intervals and equals the sum over the specification form of the window query -/
 theorem c10_time_S_refines {F : Type} [Field F] [LinearOrder F] [IsStrictOrderedRing F]
-    (integ : F → F → F) (ivs : List (F × F)) (ts te : F) (hs : C14.Sorted ivs) (hte : ts ≤ te) :
+    (integ : F → F → F) (ivs : List (F × F)) (ts te : F) (hs : C14.Sorted ivs) (hte : ts < te) :
     timeS integ ivs ts te = some (timeSSpec integ ivs ts te) := by
   unfold timeS timeSSpec
   rw [c14_between_idx_refines ivs ts te hte hs]
@@ -506,7 +527,7 @@ window.  Then for every sorted interval set — any number of gaps, touching or 
 intervals, window partly outside the on-time — with `S > 0` the density integrates to one over the
 detector on-time. -/
 theorem c10_time_normalised_general (f : ℝ → ℝ) (I : ℝ → ℝ → ℝ) (ivs : List (ℝ × ℝ)) (ts te S : ℝ)
-    (hs : C14.Sorted ivs) (hte : ts ≤ te)
+    (hs : C14.Sorted ivs) (hte : ts < te)
     (hf0 : ∀ t, t < ts ∨ te < t → f t = 0)
     (hfi : ∀ a b, IntervalIntegrable f volume a b)
     (hI : ∀ a b, ts ≤ a → a ≤ b → b ≤ te → I a b = ∫ t in a..b, f t)
@@ -522,7 +543,7 @@ theorem c10_time_normalised_general (f : ℝ → ℝ) (I : ℝ → ℝ → ℝ) 
     congr 1
     apply List.map_congr_left
     intro q hq
-    obtain ⟨h1, h2, h3, _⟩ := c14_between_within ivs ts te hte hw q hq
+    obtain ⟨h1, h2, h3, _⟩ := c14_between_within ivs ts te (le_of_lt hte) hw q hq
     exact hI q.1 q.2 h1 h2 h3
   have hper : ∀ p ∈ ivs, (∫ t in p.1..p.2, timePd f ivs S t) = (∫ t in p.1..p.2, f t) / S := by
     intro p hp
@@ -539,7 +560,7 @@ theorem c10_time_normalised_general (f : ℝ → ℝ) (I : ℝ → ℝ → ℝ) 
     unfold betweenSpec
     apply C10.sum_filter_map
     intro p hp
-    exact C10.integral_clip f ts te hte hf0 hfi p.1 p.2 (hw p hp)
+    exact C10.integral_clip f ts te (le_of_lt hte) hf0 hfi p.1 p.2 (hw p hp)
   rw [hclip, ← hSspec]
   exact div_self (ne_of_gt hpos)
 
@@ -576,7 +597,7 @@ end C10
 contains on-time (`S > 0`), normalised over the detector on-time — for every sorted interval set
 and every window `[ts, te]`. -/
 theorem c10_time_normalised_box (ivs : List (ℝ × ℝ)) (ts te S : ℝ) (hs : C14.Sorted ivs)
-    (hte : ts ≤ te) (hS : timeS (boxInt ts te) ivs ts te = some S) (hpos : 0 < S) :
+    (hte : ts < te) (hS : timeS (boxInt ts te) ivs ts te = some S) (hpos : 0 < S) :
     (∀ t, 0 ≤ timePd (boxVal ts te) ivs S t) ∧
     C10.onIntegral ivs (timePd (boxVal ts te) ivs S) = 1 := by
   constructor
@@ -595,7 +616,7 @@ theorem c10_time_normalised_box (ivs : List (ℝ × ℝ)) (ts te S : ℝ) (hs : 
 
 /-- for the box profile `S` is the live time inside the window, hence never negative -/
 theorem c10_time_box_S_nonneg (ivs : List (ℝ × ℝ)) (ts te S : ℝ) (hs : C14.Sorted ivs)
-    (hte : ts ≤ te) (hS : timeS (boxInt ts te) ivs ts te = some S) : 0 ≤ S := by
+    (hte : ts < te) (hS : timeS (boxInt ts te) ivs ts te = some S) : 0 ≤ S := by
   rw [c10_time_S_refines _ ivs ts te hs hte] at hS
   simp only [Option.some.injEq] at hS
   rw [← hS]
@@ -605,7 +626,7 @@ theorem c10_time_box_S_nonneg (ivs : List (ℝ × ℝ)) (ts te S : ℝ) (hs : C1
   intro v hv
   simp only [List.mem_map] at hv
   obtain ⟨q, hq, rfl⟩ := hv
-  obtain ⟨h1, h2, h3, _⟩ := c14_between_within ivs ts te hte (C10.sorted_le ivs hs) q hq
+  obtain ⟨h1, h2, h3, _⟩ := c14_between_within ivs ts te (le_of_lt hte) (C10.sorted_le ivs hs) q hq
   rw [C10.boxInt_eq_integral ts te q.1 q.2 h1 h2 h3]
   apply intervalIntegral.integral_nonneg h2
   intro u _
@@ -693,7 +714,7 @@ profile, any `σ ≠ 0`): non-negative and, when `S > 0`, normalised over the de
 The only assumption is that the function `erf` used by `get_integral` has the derivative of the
 error function (Mathlib has no `erf`; scipy's is trusted to be it). -/
 theorem c10_time_normalised_gauss (erf : ℝ → ℝ) (ivs : List (ℝ × ℝ)) (ts te σ S : ℝ)
-    (hs : C14.Sorted ivs) (hte : ts ≤ te) (hσ : σ ≠ 0)
+    (hs : C14.Sorted ivs) (hte : ts < te) (hσ : σ ≠ 0)
     (herf : ∀ x, HasDerivAt erf (2 / Real.sqrt Real.pi * Real.exp (-(x * x))) x)
     (hS : timeS (gaussInt erf ts te σ) ivs ts te = some S) (hpos : 0 < S) :
     (∀ t, 0 ≤ timePd (gaussVal ts te σ) ivs S t) ∧
@@ -714,6 +735,41 @@ theorem c10_time_normalised_gauss (erf : ℝ → ℝ) (ivs : List (ℝ × ℝ)) 
     rcases ht with h | h
     · exact absurd h1 (not_le.mpr h)
     · exact absurd h2 (not_lt.mpr (le_of_lt h))
+
+/-- the error function, defined by its integral (Mathlib has no `erf`): a witness that the
+hypothesis `herf` of `c10_time_normalised_gauss` is satisfiable -/
+noncomputable def C10.erfR (x : ℝ) : ℝ := 2 / Real.sqrt Real.pi * ∫ t in (0 : ℝ)..x, Real.exp (-(t * t))
+
+theorem C10.erfR_hasDerivAt (x : ℝ) :
+    HasDerivAt C10.erfR (2 / Real.sqrt Real.pi * Real.exp (-(x * x))) x := by
+  have hc : Continuous fun t : ℝ => Real.exp (-(t * t)) := by fun_prop
+  have h : HasDerivAt (fun u => ∫ t in (0 : ℝ)..u, Real.exp (-(t * t))) (Real.exp (-(x * x))) x :=
+    intervalIntegral.integral_hasDerivAt_right (hc.intervalIntegrable 0 x)
+      (hc.stronglyMeasurableAtFilter _ _) hc.continuousAt
+  exact HasDerivAt.const_mul (2 / Real.sqrt Real.pi) h
+
+/-- **gaussian time PDF with the real error function**: no analytic assumption left. -/
+theorem c10_time_normalised_gauss_erfR (ivs : List (ℝ × ℝ)) (ts te σ S : ℝ)
+    (hs : C14.Sorted ivs) (hte : ts < te) (hσ : σ ≠ 0)
+    (hS : timeS (gaussInt C10.erfR ts te σ) ivs ts te = some S) (hpos : 0 < S) :
+    (∀ t, 0 ≤ timePd (gaussVal ts te σ) ivs S t) ∧
+    C10.onIntegral ivs (timePd (gaussVal ts te σ) ivs S) = 1 :=
+  c10_time_normalised_gauss C10.erfR ivs ts te σ S hs hte hσ C10.erfR_hasDerivAt hS hpos
+
+-- the hypotheses are inhabited: live-time [0,1), window [0,1], σ = 1 has S > 0
+example : ∃ S : ℝ, timeS (gaussInt C10.erfR 0 1 1) [(0, 1)] 0 1 = some S ∧ 0 < S := by
+  have hsorted : C14.Sorted ([(0, 1)] : List (ℝ × ℝ)) := by unfold C14.Sorted flat; simp
+  refine ⟨_, c10_time_S_refines _ _ _ _ hsorted (by norm_num), ?_⟩
+  have hspec : timeSSpec (gaussInt C10.erfR 0 1 1) [((0 : ℝ), (1 : ℝ))] 0 1 = gaussInt C10.erfR 0 1 1 0 1 := by
+    simp [timeSSpec, betweenSpec, sumSeq]
+  rw [hspec, C10.gaussInt_eq_integral C10.erfR 0 1 1
+    (C10.gaussPrim_hasDerivAt C10.erfR 0 1 1 one_ne_zero C10.erfR_hasDerivAt) 0 1 (le_refl _) zero_le_one (le_refl _)]
+  rw [intervalIntegral.integral_congr_Ioo_of_le zero_le_one (g := gaussShape 0 1 1)
+    (fun t ht => by
+      show gaussVal 0 1 1 t = gaussShape 0 1 1 t
+      unfold gaussVal; rw [if_pos ⟨le_of_lt ht.1, ht.2⟩])]
+  exact intervalIntegral.intervalIntegral_pos_of_pos
+    ((C10.gaussShape_continuous 0 1 1).intervalIntegrable 0 1) (fun t => C10.gaussShape_pos 0 1 1 t) zero_lt_one
 
 /-! ### several trials on one object -/
 
@@ -760,11 +816,11 @@ namespace C10
 
 /-- the cache invariant: `_S` is what `_calculate_sum_of_ontime_time_flux_profile_integrals`
 returns for the *current* live-time and profile -/
-def Inv {F : Type} [Add F] [LE F] [DecidableLE F] [OfNat F 0]
+def Inv {F : Type} [Add F] [LE F] [DecidableLE F] [LT F] [DecidableLT F] [OfNat F 0]
     (table : Nat → F × F × (F → F → F)) (s : TState F) : Prop :=
   s.S = calcS table s.ivs s.prof
 
-theorem inv_step {F : Type} [Add F] [LE F] [DecidableLE F] [OfNat F 0]
+theorem inv_step {F : Type} [Add F] [LE F] [DecidableLE F] [LT F] [DecidableLT F] [OfNat F 0]
     (table : Nat → F × F × (F → F → F)) (s : TState F) (op : TOp F) (h : Inv table s) :
     Inv table (tStep table s op) := by
   cases op with
@@ -781,7 +837,7 @@ end C10
 /-- **`_S` is never stale**: after any sequence of parameter updates (`get_pd` with new source
 parameters), live-time assignments and profile assignments the cached `_S` equals the value
 computed from the current live-time and the current profile. -/
-theorem c10_time_cache_invariant {F : Type} [Add F] [LE F] [DecidableLE F] [OfNat F 0]
+theorem c10_time_cache_invariant {F : Type} [Add F] [LE F] [DecidableLE F] [LT F] [DecidableLT F] [OfNat F 0]
     (table : Nat → F × F × (F → F → F)) (ivs : List (F × F)) (p : Nat) (ops : List (TOp F)) :
     C10.Inv table (tRun table (tInit table ivs p) ops) := by
   have hgen : ∀ (ops : List (TOp F)) (s : TState F), C10.Inv table s → C10.Inv table (tRun table s ops) := by
@@ -799,7 +855,7 @@ theorem c10_time_cache_invariant {F : Type} [Add F] [LE F] [DecidableLE F] [OfNa
 normalised over the current on-time (if that is sorted and `_S > 0`) -/
 theorem c10_time_normalised_after_history (tss tes : Nat → ℝ) (ivs : List (ℝ × ℝ)) (p : Nat)
     (ops : List (TOp ℝ)) (S : ℝ)
-    (hwin : ∀ k, tss k ≤ tes k) :
+    (hwin : ∀ k, tss k < tes k) :
     let table := fun k => (tss k, tes k, boxInt (tss k) (tes k))
     let s := tRun table (tInit table ivs p) ops
     C14.Sorted s.ivs → s.S = some S → 0 < S →
@@ -823,9 +879,175 @@ theorem c10_time_cache_invariant_orig_counterexample : ¬ c10_time_cache_invaria
   unfold C10.Inv
   decide
 
+/-! ### the complete cached state: `_S`, its fingerprint, the pre-calculated `_pd` -/
+
+namespace C10
+section inv2
+variable {F : Type} [Add F] [Div F] [LE F] [DecidableLE F] [LT F] [DecidableLT F] [OfNat F 0]
+
+/-- invariant of the fixed object: the fingerprint never runs ahead of the array identity, and
+whenever the fingerprint names the current array, `_S` and a pre-calculated `_pd` are those of
+the fingerprinted profile state on the current array and trial -/
+def Inv2 (table : Nat → F × F × (F → F → F)) (val : Nat → F → F) (s : TState2 F) : Prop :=
+  s.key.1 ≤ s.ivsId ∧
+  (s.key.1 = s.ivsId → s.S = calcS table s.ivs s.key.2 ∧
+    ∀ l, s.pd = some l → some l = s.S.map (fun S => s.trial.map (timePd (val s.key.2) s.ivs S)))
+
+theorem upToDate_iff (s : TState2 F) : upToDate true s = true ↔ s.key.1 = s.ivsId ∧ s.key.2 = s.prof := by
+  unfold upToDate
+  simp [Prod.ext_iff]
+
+theorem inv2_refresh (table : Nat → F × F × (F → F → F)) (val : Nat → F → F) (s : TState2 F) :
+    Inv2 table val (refresh2 true table s) := by
+  unfold refresh2 Inv2
+  simp
+
+theorem inv2_ensure (table : Nat → F × F × (F → F → F)) (val : Nat → F → F) (s : TState2 F)
+    (h : Inv2 table val s) : Inv2 table val (ensure2 true table s) := by
+  unfold ensure2
+  split_ifs
+  · exact h
+  · exact inv2_refresh table val s
+
+theorem ensure2_upToDate (table : Nat → F × F × (F → F → F)) (s : TState2 F) :
+    upToDate true (ensure2 true table s) = true := by
+  unfold ensure2
+  split_ifs with h
+  · exact h
+  · rw [upToDate_iff]; simp [refresh2]
+
+theorem ensure2_fields (table : Nat → F × F × (F → F → F)) (s : TState2 F) :
+    (ensure2 true table s).ivs = s.ivs ∧ (ensure2 true table s).prof = s.prof ∧
+    (ensure2 true table s).trial = s.trial ∧ (ensure2 true table s).ivsId = s.ivsId := by
+  unfold ensure2
+  split_ifs <;> simp [refresh2]
+
+/-- in an up-to-date state satisfying the invariant `_S` is current -/
+theorem inv2_S (table : Nat → F × F × (F → F → F)) (val : Nat → F → F) (s : TState2 F)
+    (h : Inv2 table val s) (hu : upToDate true s = true) : s.S = calcS table s.ivs s.prof := by
+  obtain ⟨h1, h2⟩ := (upToDate_iff s).mp hu
+  rw [← h2]; exact (h.2 h1).1
+
+theorem inv2_step (table : Nat → F × F × (F → F → F)) (val : Nat → F → F) (s : TState2 F)
+    (op : TOp2 F) (h : Inv2 table val s) : Inv2 table val (tStep2 true table val s op) := by
+  cases op with
+  | setLivetime ivs => exact inv2_refresh table val _
+  | setProfile p => exact inv2_refresh table val _
+  | profileMutated p => exact h
+  | livetimeMutated ivs =>
+    refine ⟨Nat.le_succ_of_le h.1, fun heq => ?_⟩
+    have := h.1
+    simp only [tStep2] at heq
+    omega
+  | initTrial times =>
+    simp only [tStep2]
+    -- the state handed to `ensure2` may hold a stale `pd`; it is overwritten below
+    have hu := ensure2_upToDate table { s with trial := times }
+    obtain ⟨hk1, hk2⟩ := (upToDate_iff _).mp hu
+    have hinv' : Inv2 table val (ensure2 true table { s with trial := times, pd := none }) :=
+      inv2_ensure table val _ ⟨h.1, fun heq => ⟨(h.2 heq).1, fun l hl => by simp at hl⟩⟩
+    have hsame : ∀ (t : TState2 F), (ensure2 true table { t with pd := none }).S = (ensure2 true table t).S ∧
+        (ensure2 true table { t with pd := none }).key = (ensure2 true table t).key := by
+      intro t
+      unfold ensure2 upToDate refresh2
+      simp only
+      split_ifs <;> simp
+    refine ⟨by rw [hk1], fun _ => ⟨?_, ?_⟩⟩
+    · have h1 := (hsame { s with trial := times }).1
+      have h2 := (hsame { s with trial := times }).2
+      have hf := ensure2_fields table { s with trial := times }
+      have hf' := ensure2_fields table { s with trial := times, pd := none }
+      have hS := (hinv'.2 (by rw [h2, hk1, hf'.2.2.2, hf.2.2.2])).1
+      simp only at hS ⊢
+      rw [← h1, hS, h2, hf'.1, hf.1]
+    · intro l hl
+      simp only at hl ⊢
+      rw [← hl, hk2]
+      rfl
+  | getPd =>
+    simp only [tStep2]
+    split_ifs
+    · exact h
+    · exact inv2_ensure table val s h
+
+/-- what `get_pd` returns in a state satisfying the invariant -/
+theorem tGet_current (table : Nat → F × F × (F → F → F)) (val : Nat → F → F) (s : TState2 F)
+    (h : Inv2 table val s) :
+    tGet true table val s =
+      (calcS table s.ivs s.prof).map (fun S => s.trial.map (timePd (val s.prof) s.ivs S)) := by
+  unfold tGet
+  split_ifs with hc
+  · simp only [Bool.and_eq_true] at hc
+    obtain ⟨hsome, hu⟩ := hc
+    obtain ⟨h1, h2⟩ := (upToDate_iff s).mp hu
+    obtain ⟨l, hl⟩ := Option.isSome_iff_exists.mp hsome
+    have := (h.2 h1).2 l hl
+    rw [hl, this, (h.2 h1).1, h2]
+  · have hu := ensure2_upToDate table s
+    have hinv := inv2_ensure table val s h
+    have hf := ensure2_fields table s
+    unfold pdOf
+    rw [inv2_S table val _ hinv hu, hf.1, hf.2.1, hf.2.2.1]
+
+end inv2
+end C10
+
+/-- **`get_pd` is always current** (fixed code): after *any* history of `livetime` /
+`time_flux_profile` assignments, changes of the shared profile object or of the live-time's
+interval array behind the PDF's back, `initialize_for_new_trial` and `get_pd` calls — in any
+order, e.g. a setter between `initialize_for_new_trial` and `get_pd` — `get_pd` returns the
+density of the current trial for the *current* live-time and profile, with the normalisation
+computed from exactly these.  (Together with `c10_time_normalised_box/_gauss`: normalised.) -/
+theorem c10_time_getpd_current {F : Type} [Add F] [Div F] [LE F] [DecidableLE F] [LT F]
+    [DecidableLT F] [OfNat F 0] (table : Nat → F × F × (F → F → F)) (val : Nat → F → F)
+    (ivs : List (F × F)) (p : Nat) (ops : List (TOp2 F)) :
+    let s := tRun2 true table val (tInit2 table ivs p) ops
+    tGet true table val s =
+      (calcS table s.ivs s.prof).map (fun S => s.trial.map (timePd (val s.prof) s.ivs S)) := by
+  intro s
+  apply C10.tGet_current
+  have hgen : ∀ (ops : List (TOp2 F)) (s : TState2 F), C10.Inv2 table val s →
+      C10.Inv2 table val (tRun2 true table val s ops) := by
+    intro ops
+    induction ops with
+    | nil => intro s h; exact h
+    | cons op rest ih =>
+      intro s h
+      unfold tRun2
+      rw [List.foldl_cons]
+      exact ih _ (C10.inv2_step table val s op h)
+  apply hgen
+  exact ⟨Nat.le_refl _, fun _ => ⟨rfl, fun l hl => by simp [tInit2] at hl⟩⟩
+
+/-- the same claim for the code before the fix (`fixed = false`: no fingerprint, `_pd` survives) -/
+def c10_time_getpd_current_orig_statement : Prop :=
+  ∀ (table : Nat → ℤ × ℤ × (ℤ → ℤ → ℤ)) (val : Nat → ℤ → ℤ) (ivs : List (ℤ × ℤ)) (p : Nat)
+    (ops : List (TOp2 ℤ)),
+    let s := tRun2 false table val (tInit2 table ivs p) ops
+    tGet false table val s =
+      (calcS table s.ivs s.prof).map (fun S => s.trial.map (timePd (val s.prof) s.ivs S))
+
+/-- live-time `[0,1)`, box window `[0,10]`, trial `[0, 3]` pre-calculated, then
+`pdf.livetime = [3,4)`: `get_pd` still returned `[1, 0]` instead of `[0, 1]`. -/
+theorem c10_time_getpd_current_orig_counterexample : ¬ c10_time_getpd_current_orig_statement := by
+  intro h
+  have := h (fun _ => (0, 10, boxInt 0 10)) (fun _ => boxVal 0 10) [(0, 1)] 0
+    [.initTrial [0, 3], .setLivetime [(3, 4)]]
+  revert this
+  decide
+
+/-- … and a profile object moved by another PDF left `_S` stale (shared profile): window `[0,10]`
+→ `[0,1]` on live-time `[0,2)`: `_S` stayed 2. -/
+theorem c10_time_shared_profile_orig_counterexample :
+    let table : Nat → ℤ × ℤ × (ℤ → ℤ → ℤ) := fun k => if k = 0 then (0, 10, boxInt 0 10) else (0, 1, boxInt 0 1)
+    let val : Nat → ℤ → ℤ := fun k => if k = 0 then boxVal 0 10 else boxVal 0 1
+    let s := tRun2 false table val (tInit2 table [(0, 2)] 0) [.profileMutated 1, .initTrial [0]]
+    tGet false table val s ≠ (calcS table s.ivs s.prof).map (fun S => s.trial.map (timePd (val s.prof) s.ivs S)) := by
+  decide
+
 /-! ## Part 3 — point-spread densities -/
 
-theorem c10_psf_nonneg (σ ψ : ℝ) : 0 ≤ psfPd σ ψ := by
+theorem c10_psf_nonneg (σ ψ : ℝ) (hσ : σ ≠ 0) : 0 ≤ psfPd σ ψ := by
   unfold psfPd
   simp only [TranscReal.exp_def, TranscReal.pi_def]
   have : 0 ≤ σ * σ := mul_self_nonneg σ
@@ -882,10 +1104,29 @@ theorem c10_rayleigh_sphere (σ : ℝ) (hσ : σ ≠ 0) :
     have hsin : Real.sin ψ ≠ 0 := ne_of_gt (Real.sin_pos_of_pos_of_lt_pi hψ.1 hψ.2)
     show rayleighPd σ ψ * (2 * Real.pi * Real.sin ψ) = _
     unfold rayleighPd
-    simp only [TranscReal.exp_def, TranscReal.pi_def, TranscReal.sin_def]
+    have hz : ¬ isZero ψ = true := fun h => (ne_of_gt hψ.1) ((C10.isZero_iff ψ).mp h)
+    simp only [TranscReal.exp_def, TranscReal.pi_def, TranscReal.sin_def, if_neg hz]
     field_simp
     norm_num
     ring
+
+/-- the Rayleigh form is non-negative on the sphere (`0 ≤ ψ ≤ π`, `σ ≠ 0`) and at the source
+position (`ψ = 0`, where the unfixed expression was `inf·0`) it equals the gaussian PSF -/
+theorem c10_rayleigh_nonneg (σ ψ : ℝ) (hσ : σ ≠ 0) (h0 : 0 ≤ ψ) (hpi : ψ ≤ Real.pi) :
+    0 ≤ rayleighPd σ ψ ∧ rayleighPd σ 0 = psfPd σ 0 := by
+  have hss : 0 < σ * σ := mul_self_pos.mpr hσ
+  have hp := Real.pi_pos
+  constructor
+  · unfold rayleighPd
+    simp only [TranscReal.exp_def, TranscReal.pi_def, TranscReal.sin_def]
+    have hr : 0 ≤ (if isZero ψ = true then (1 : ℝ) else ψ / Real.sin ψ) := by
+      split_ifs
+      · exact zero_le_one
+      · exact div_nonneg h0 (Real.sin_nonneg_of_nonneg_of_le_pi h0 hpi)
+    positivity
+  · unfold rayleighPd psfPd
+    have hz : isZero (0 : ℝ) = true := (C10.isZero_iff _).mpr rfl
+    simp only [hz, if_true, mul_one]
 
 /-- the `1/2π` factor of the background spatial PDF: a density `p` in `sin δ` becomes `p/2π` per
 solid angle, non-negative whatever the log-spline returns -/
